@@ -269,6 +269,12 @@ def check_vector(vec, idx):
             data, dof = build_input(vec, fl)
             before = fingerprint((data, dof))
             fd.s('calls')
+            if form in (4, 5):
+                fd.s(f'dataset_calls_{est}')
+                if any(len(set(b['lab'])) == 1 for b in vec['blocks']):
+                    fd.s(f'single_condition_dataset_calls_{est}')
+                if any(len(set(b['lab'])) == len(b['lab']) for b in vec['blocks']):
+                    fd.s(f'one_repetition_dataset_calls_{est}')
             try:
                 res = call(est, 'cov', data, dof, method)
             except Exception as e:  # noqa: BLE001
@@ -453,14 +459,17 @@ def random_input(rng, big=True):
     blocks = []
     n3 = int(rng.integers(3, 21))
     bal = rng.random() < 0.5
+    onerep = rng.random() < 0.15      # one repetition per condition everywhere: needs a passed dof
     for _ in range(K):
         if form in (4, 5):
-            C = int(rng.integers(2, 6))
-            if bal:
+            C = int(rng.integers(1, 6))
+            if C == 1:
+                cnt = [int(rng.integers(2, 21))]          # single-condition Dataset
+            elif bal:
                 cnt = [int(rng.integers(2, 6))] * C
             else:
-                cnt = [int(rng.integers(1, 6)) for _ in range(C)]
-                if sum(cnt) == C:
+                cnt = [1 if onerep else int(rng.integers(1, 6)) for _ in range(C)]
+                if sum(cnt) == C and not onerep:
                     cnt[0] += 1
             lab = [g + 1 for g, n in enumerate(cnt) for _ in range(n)]
             lab = [lab[i] for i in rng.permutation(len(lab))]
@@ -472,6 +481,8 @@ def random_input(rng, big=True):
         raw = rng.integers(-3, 4, size=(len(lab), P))
         blocks.append({'lab': [int(v) for v in lab], 'x': (raw * L).astype(int).tolist()})
     opt = int(rng.choice([0, 0, 1, 2])) if K > 1 else int(rng.choice([0, 0, 1]))
+    if opt == 0 and any(len(b['lab']) == len(set(b['lab'])) for b in blocks):
+        opt = 1                           # natural dof 0: only admissible with a passed dof
     if opt == 0:
         dofv = [0] * K
     elif opt == 1:
@@ -498,11 +509,22 @@ def record_trace(vec, est, idx, corrupt=False):
     fulls = None
     for mi, method in enumerate(METHODS):
         data, dof = build_input(vec, fl)
+        before = fingerprint((data, dof))
         try:
             res = call(est, 'cov', data, dof, method)
         except Exception as e:  # noqa: BLE001
             notes.append(('raises', method, f'{type(e).__name__}: {e}'))
             continue
+        if fingerprint((data, dof)) != before:
+            notes.append(('modified', method, 'cov'))
+        data2, dof2 = build_input(vec, fl)
+        before = fingerprint((data2, dof2))
+        try:
+            call(est, 'prec', data2, dof2, method)
+        except Exception:  # noqa: BLE001  (singular covariance: not demanded here)
+            pass
+        if fingerprint((data2, dof2)) != before:
+            notes.append(('modified', method, 'prec'))
         mats = _as_mats(res, K, P, single)
         if mats is None:
             notes.append(('shape', method, _describe(res)))
